@@ -13,6 +13,8 @@
                    consuming the token just peeked) or is a reviewed edge (tables/parse_recursion.json) whose recorded
                    guard still holds. `==` / `!=` against the start index prove nothing: after the end-of-file unpop the
                    index can be smaller than the start.
+  PAIRED-CALLS     the scope stacks of the unused-variable check and of the type checker's local bindings: every function that
+                   opens a scope closes it exactly once on every path (the reviewed `expect`s on those stacks rely on it).
   POP-UNPOP        every `unpop()` is paired with a `pop()` of the same call that returned a token.
 """
 from .. import panicinv as PI, parseprog as PP, mir as M, dflow as D
@@ -36,6 +38,7 @@ def run(ctx, res):
             res.bad("PARSE-PROGRESS", key, "forward-progress assertion in `%s`: %s" % (f.path, why), s.loc())
     PP.loop_guards(P, reach, res)
     PP.pop_unpop(P, reach, res)
+    PI.paired_calls(P, res)
     import json as _json, os as _os
     from ..core import VERIF as _V
     PP.recursion_progress(P, reach, res, _json.load(open(_os.path.join(_V, "tables", "parse_recursion.json"))))
